@@ -192,8 +192,13 @@ def _replay_chunk(args):
     from harness import parworker
     pool, out = [], []
     try:
+        retries = 3
         for k, sched, mode in items:
-            out.append((k, parworker.replay(repo, base, sched, tag=f"s{k}", pool=pool, mode=mode)))
+            tr = parworker.replay(repo, base, sched, tag=f"s{k}", pool=pool, mode=mode, timeout=60.0)
+            if tr["hang"] and retries:           # a process that does not answer within a minute on a
+                retries -= 1                     # crowded machine: a real hang shows again
+                tr = parworker.replay(repo, base, sched, tag=f"s{k}", pool=pool, mode=mode, timeout=120.0)
+            out.append((k, tr))
     finally:
         for w in pool:
             w.stop()
@@ -402,7 +407,8 @@ def run(ctx):
         ctx.tlc_stats(res)
         info = dict(distinct=res.distinct, generated=res.generated, wall=round(res.wall, 1))
         if name.startswith("design") or name.startswith("mc_full"):
-            info.update(diameter=depth_of(res), holds=True)
+            info.update(diameter=depth_of(res), checked="TypeOK LockSound MutexSound" +
+                        (" + the four property invariants: hold" if name.startswith("design") else ""))
             design[name] = info
             continue
         info["schedules"] = len(found)
